@@ -44,6 +44,7 @@ func c17ProbeConsumers(c *Ctx) {
 	c17Safe(c, "consumer-ciphertext", c17ConsumerCiphertexts)
 	c17Safe(c, "consumer-evk", c17ConsumerEvk)
 	c17Safe(c, "consumer-crp", c17ConsumerCRP)
+	c17Safe(c, "consumer-secret-hw", c17ConsumerSecretHW)
 }
 
 // ---- compressed (degree 0) ciphertexts through Encryptor.WithPRNG ----
@@ -330,4 +331,114 @@ func c17ConsumerCRP(c *Ctx) {
 		}
 		c.Probe("consumer-crp-sequence", args, "C17/crp-stream-accounting", detail)
 	}
+}
+
+// ---- APIs taking an explicit Hamming weight: the secret has EXACTLY hw non-zero coefficients ----
+//
+// GenSecretKeyWithHammingWeight(New) on parameter sets whose own secret distribution Xs is density based
+// (Ternary{P}), fixed weight (Ternary{H}) or Gaussian — in particular for hw = params.XsHammingWeight(),
+// which for Ternary{P} / Gaussian is only the EXPECTED weight of Xs.  The last set mirrors the ephemeral
+// sparse secret of the bootstrapping (genEncapsulationEvaluationKeysNew: Q[:1], P[:1], default Xs).
+func c17ConsumerSecretHW(c *Ctx) {
+	type pset struct {
+		name string
+		lit  rlwe.ParametersLiteral
+	}
+	var sets []pset
+	for _, logN := range []int{6, 10} {
+		N := 1 << logN
+		sets = append(sets,
+			pset{fmt.Sprintf("TernaryP2/3,logN=%d", logN), rlwe.ParametersLiteral{LogN: logN, LogQ: []int{50, 45}, LogP: []int{55}, Xs: ring.Ternary{P: 2.0 / 3.0}}},
+			pset{fmt.Sprintf("TernaryP1/2,logN=%d", logN), rlwe.ParametersLiteral{LogN: logN, LogQ: []int{50, 45}, LogP: []int{55}, Xs: ring.Ternary{P: 0.5}}},
+			pset{fmt.Sprintf("TernaryP1/4,logN=%d", logN), rlwe.ParametersLiteral{LogN: logN, LogQ: []int{50}, Xs: ring.Ternary{P: 0.25}}},
+			pset{fmt.Sprintf("TernaryH,logN=%d", logN), rlwe.ParametersLiteral{LogN: logN, LogQ: []int{50, 45}, LogP: []int{55}, Xs: ring.Ternary{H: N / 2}}},
+			pset{fmt.Sprintf("Gaussian0.5,logN=%d", logN), rlwe.ParametersLiteral{LogN: logN, LogQ: []int{50, 45}, LogP: []int{55}, Xs: ring.DiscreteGaussian{Sigma: 0.5, Bound: 3}}},
+			pset{fmt.Sprintf("Gaussian3.2,logN=%d", logN), rlwe.ParametersLiteral{LogN: logN, LogQ: []int{50, 45}, Xs: ring.DiscreteGaussian{Sigma: 3.2, Bound: 19.2}}},
+			pset{fmt.Sprintf("default(bootstrapping-sparse),logN=%d", logN), rlwe.ParametersLiteral{LogN: logN, LogQ: []int{55}, LogP: []int{56}}},
+		)
+	}
+	for _, ps := range sets {
+		params, err := rlwe.NewParametersFromLiteral(ps.lit)
+		if err != nil {
+			panic(err)
+		}
+		N := params.N()
+		kgen := rlwe.NewKeyGenerator(params)
+		hws := []int{1, 2, N / 4, params.XsHammingWeight(), params.XsHammingWeight() - 1, params.XsHammingWeight() + 1, N - 1, N}
+		for k, hw := range hws {
+			if hw < 1 {
+				continue
+			}
+			want := hw
+			if want > N {
+				want = N // sampleSparse clips the weight to N
+			}
+			args := fmt.Sprintf("params=%s N=%d XsHammingWeight=%d hw=%d api=%s", ps.name, N, params.XsHammingWeight(), hw, []string{"New", "InPlace"}[k%2])
+			detail := Try(func() string {
+				var sk *rlwe.SecretKey
+				if k%2 == 0 {
+					sk = kgen.GenSecretKeyWithHammingWeightNew(hw)
+				} else {
+					sk = rlwe.NewSecretKey(params)
+					kgen.GenSecretKeyWithHammingWeight(hw, sk)
+				}
+				return c17SecretShape(params, sk, want)
+			})
+			if detail == "panic" {
+				detail = "panic"
+			}
+			c.Probe("consumer-secret-hamming-weight", args, "C17/secret-key-exact-hamming-weight", detail)
+		}
+	}
+}
+
+// the secret (stored NTT + Montgomery, Q and P limbs) is ONE vector in {-1,0,1}^N with exactly want non-zeros
+func c17SecretShape(params rlwe.Parameters, sk *rlwe.SecretKey, want int) string {
+	ringQP := params.RingQP().AtLevel(sk.LevelQ(), sk.LevelP())
+	v := sk.Value.CopyNew()
+	ringQP.IMForm(*v, *v)
+	ringQP.INTT(*v, *v)
+	N := params.N()
+	type limb struct {
+		q   uint64
+		row []uint64
+	}
+	var limbs []limb
+	for i, q := range params.Q()[:sk.LevelQ()+1] {
+		limbs = append(limbs, limb{q, v.Q.Coeffs[i]})
+	}
+	if sk.LevelP() >= 0 {
+		for i, q := range params.P()[:sk.LevelP()+1] {
+			limbs = append(limbs, limb{q, v.P.Coeffs[i]})
+		}
+	}
+	nz := 0
+	for j := 0; j < N; j++ {
+		var x0 int
+		for i, l := range limbs {
+			var x int
+			switch l.row[j] {
+			case 0:
+				x = 0
+			case 1:
+				x = 1
+			case l.q - 1:
+				x = -1
+			default:
+				return fmt.Sprintf("coefficient %d limb %d = %d is not in {-1,0,1} mod %d", j, i, l.row[j], l.q)
+			}
+			if i == 0 {
+				x0 = x
+			} else if x != x0 {
+				return fmt.Sprintf("coefficient %d: limb %d holds %d, limb 0 holds %d", j, i, x, x0)
+			}
+		}
+		if x0 != 0 {
+			nz++
+		}
+	}
+	if nz != want {
+		return fmt.Sprintf("Hamming weight %d, want exactly %d", nz, want)
+	}
+	return ""
 }
